@@ -125,7 +125,7 @@ def tlc_dump(res, fam, name):
 
 def replay_all(res, g, shapes, name, desper):
     def factory():
-        return WorldLoadAdapter(desper, shapes)
+        return WorldLoadAdapter(desper, shapes, workdir=res.scratch)
 
     st = replay.run_paths(g, factory, replay.edge_paths(g))
     st.extra['descriptions'] = len(g.init)
@@ -140,10 +140,10 @@ def run(res):
         c, ov = consts('quick', small=True)
         jobs = [pool.submit(res.model_check, 'WorldLoadMC', 'c15_small_step', c, invariants=INVARIANTS, overrides=ov)]
         # non-vacuity: with the pinned behaviour the declarative properties fail
-        c2, ov2 = consts('quickS', small=True, auto=False)
+        c2, ov2 = consts('tiny', small=True, auto=False)
         jobs.append(pool.submit(res.model_check, 'WorldLoadMC', 'c15_asimpl_autoid', c2, invariants=INVARIANTS,
                                 overrides=ov2, expect_violation='LoadedEqualsDescribed', count=False))
-        c3, ov3 = consts('quickV', small=True, linked=False)
+        c3, ov3 = consts('tiny', small=True, linked=False)
         jobs.append(pool.submit(res.model_check, 'WorldLoadMC', 'c15_asimpl_implicit_maps', c3, invariants=INVARIANTS,
                                 overrides=ov3, expect_violation=('NoFailure', 'LoadedEqualsDescribed'), count=False))
         dump = pool.submit(tlc_dump, res, 'quick', 'c15_quick_lean')
@@ -170,7 +170,7 @@ def run(res):
 
 
 def sample(res, g, shapes, desper):
-    ad = WorldLoadAdapter(desper, shapes)
+    ad = WorldLoadAdapter(desper, shapes, workdir=res.scratch)
     picked = 0
     for i in g.init[res.seed % 97::max(1, len(g.init) // 3)]:
         d = g.states[i]['desc']
